@@ -30,6 +30,10 @@ TEXTS = {
     "comb0": "́",
     "dec": "┌─┐│x",
     "mixed": "a字́ b─c界",
+    # text markup (attributes do not matter for sizes, but the markup machinery sits in front of the layout): nested tags,
+    # an EMPTY tagged fragment in the middle, an empty list element
+    "mk1": [("a1", "ab"), ("a2", ""), "cd ef"],
+    "mk2": [("a1", ["x", ("a2", "字")]), [], " y", ("a1", "")],
 }
 DIV_CHARS = {"sp": " ", "dash": "-", "wide": "字", "line": "─", "comb": "é"}
 
@@ -51,7 +55,10 @@ def alphabet_selfcheck():
     import wcwidth
 
     bad = []
-    for s in list(TEXTS.values()) + list(DIV_CHARS.values()):
+    def flat(m):
+        return m if isinstance(m, str) else (flat(m[1]) if isinstance(m, tuple) else "".join(flat(x) for x in m))
+
+    for s in [flat(v) for v in TEXTS.values()] + list(DIV_CHARS.values()):
         for ch in s:
             if ch != "\n" and wcwidth.wcwidth(ch) != uwidth(ch):
                 bad.append(hex(ord(ch)))
@@ -236,9 +243,14 @@ class World:
     # -----------------------------------------------------------------------------------------------
     def text(self, tid, enc, as_bytes=0):
         s = TEXTS[tid]
-        if as_bytes:
-            return s.encode(ENCODINGS[enc], "replace")
-        return s
+
+        def conv(m):
+            if isinstance(m, str):
+                return m.encode(ENCODINGS[enc], "replace") if as_bytes else m
+            if isinstance(m, tuple):
+                return (m[0], conv(m[1]))
+            return [conv(x) for x in m]
+        return conv(s)
 
     def build(self, t, enc="utf8"):
         """Term -> widget.  Raises whatever urwid raises for an ill-formed composition."""
